@@ -66,6 +66,13 @@ def getattr_(I, obj, name):
                 sv = SV(t, ty)
                 ctx.assume_class(t, ty)
                 return sv
+            if getattr(ty, "undeclared_may_be_missing", False):
+                # an object known ONLY through the declared interface (e.g. "some template": a Partial or a PartialBind): any other attribute
+                # exists for some of the objects it stands for and not for others - the AttributeError outcome is explored, the other one is
+                # outside the interface (undecided)
+                ctx.ghost["nondet"] = True
+                if ctx.choose(2, "getattr-outside-interface(%s)" % name) == 1:
+                    raise _attr_error(I, obj, name)
             raise Unsupported("abstract %s has no declared member %s" % (ty.name, name))
         if isinstance(ty, (TSeq, TMap)) or type(ty).__name__ == "TSet":
             return SeqMethod(obj, name)
